@@ -12,7 +12,7 @@ from common import Infra, run_tlc, Scratch, log
 
 # which P predicates decide which property (PipeProps.Verdicts)
 PREDS = {
-    "C05": ["PipePrefix", "PipeComplete", "PipeSettle", "Prefix", "SeqExact", "FoldRes", "Complete", "TakeBound", "CallsPrefix", "CallsComplete", "Settle1"],
+    "C05": ["PipePrefix", "PipeComplete", "PipeSettle", "PipeGen", "Prefix", "SeqExact", "FoldRes", "Complete", "TakeBound", "CallsPrefix", "CallsComplete", "Settle1"],
     "C06": ["PipePrefix", "NoPanic", "Prefix", "FoldRes", "Settle1", "Settle2", "LiftCloses", "GenExact", "GenSettle", "JoinPerInput", "JoinNothingInvented"],
     "C07": ["Prefix", "Complete", "CallsPrefix", "CallsComplete", "Settle1", "LiftCloses", "NoPanic", "GenExact", "GenSettle"],
     "C08": ["NeverBlocksSender", "Prefix", "LosslessAfterCancel", "Complete", "Settle1", "NewSettle", "NoPanic"],
@@ -490,6 +490,13 @@ def pipeline_cfgs(rng, n):
                 break
             stages.append(st)
         out.append(C(kind="Pipeline", cap=rng.randint(0, 2), inputs=[vals[: rng.randint(0, 6)]], stages=stages))
+    # the README's quick example: Unfold |> TakeWhile |> Map |> Map (|> Fold), fed by the generator, cut by TakeWhile / Take
+    for cap in (0, 1, 2):
+        for cut in (dict(kind="TakeWhile", pred=[1, 2, 3, 4, 5]), dict(kind="Take", n=4)):
+            st = [cut, dict(kind="Map", mode="pure"), dict(kind="Map", mode="pure")]
+            out.append(C(kind="Pipeline", cap=cap, inputs=[], seed=1, step="succ", stages=st))
+            out.append(C(kind="Pipeline", cap=cap, inputs=[], seed=1, step="succ", stages=st + [dict(kind="Fold", monoid="sum")]))
+            out.append(C(kind="Pipeline", cap=cap, inputs=[], seed=1, step="double", stages=[dict(kind="Filter", pred=[2, 8, 32, 128]), dict(kind="Take", n=3), dict(kind="FMap", mode="try", fail=[8])]))
     return out
 
 
